@@ -60,13 +60,15 @@ const (
 	// starts with endstream (also followed by a line endobj) / with endobj.
 	// On a non-seekable sink such a stream gets an indirect /Length; as long as
 	// that can be resolved the body is unambiguous.
+	// BodyBigCR: > 1024 bytes ending in a bare CR
+	BodyBigCR           BodyKind = "bigcr"
 	BodyBigEOLEndstream BodyKind = "bigeolendstream"
 	BodyBigEOLEndobj    BodyKind = "bigeolendobj"
 )
 
 // AllBodies lists every body kind.
 var AllBodies = []BodyKind{BodyPlain, BodyBinary, BodyEOL, BodyCR, BodyEndstream, BodyEOLEndstream, BodyEndobj, BodyMidHeader,
-	BodyTrailerLine, BodyXrefLine, BodyStartxrefLine, BodyEOFLine, BodyEmpty, BodyBig, BodyBigEOLEndstream, BodyBigEOLEndobj}
+	BodyTrailerLine, BodyXrefLine, BodyStartxrefLine, BodyEOFLine, BodyEmpty, BodyBig, BodyBigCR, BodyBigEOLEndstream, BodyBigEOLEndobj}
 
 // MarkerBodies are the body kinds with a line-initial trailer keyword.
 var MarkerBodies = []BodyKind{BodyTrailerLine, BodyXrefLine, BodyStartxrefLine, BodyEOFLine}
@@ -87,19 +89,25 @@ var AllFilters = []string{"Flate", "LZW", "ASCIIHex", "ASCII85", "RunLength"}
 // a PDF 1.7 file with a cross-reference table, no object streams, no filters,
 // no encryption, written to a non-seekable sink.
 type DocOptions struct {
-	Version     pdf.Version // 0 means pdf.V1_7
-	XRefStream  bool        // cross-reference stream (needs Version >= 1.5); false: classic table + trailer
-	ObjStm      bool        // non-stream objects are written through WriteCompressed (needs XRefStream)
-	Seekable    bool        // the sink can seek: /Length is patched in place; otherwise it is an indirect object
-	Filters     []string    // pool of filters for streams (subset of AllFilters); each stream uses 0..2 of them
-	Encrypt     bool        // user password "user", owner password "owner"
-	Objects     int         // number of generated objects besides the page tree root (default 8)
-	MaxBody     int         // bound for ordinary stream bodies (default 120)
-	Bodies      []BodyKind  // admissible stream bodies (default: plain, binary, eol)
-	NoStreams   bool        // no stream objects at all
-	MinStreams  int         // at least this many stream objects (the first generated objects)
-	CycleBodies bool        // the k-th stream gets Bodies[k mod len(Bodies)] instead of a random element
-	Info        bool        // fill in the Info dictionary
+	Version    pdf.Version // 0 means pdf.V1_7
+	XRefStream bool        // cross-reference stream (needs Version >= 1.5); false: classic table + trailer
+	ObjStm     bool        // non-stream objects are written through WriteCompressed (needs XRefStream)
+	Seekable   bool        // the sink can seek: /Length is patched in place; otherwise it is an indirect object
+	Filters    []string    // pool of filters for streams (subset of AllFilters); each stream uses 0..2 of them
+	Encrypt    bool        // user password "user", owner password "owner"
+	Objects    int         // number of generated objects besides the page tree root (default 8)
+	MaxBody    int         // bound for ordinary stream bodies (default 120)
+	Bodies     []BodyKind  // admissible stream bodies (default: plain, binary, eol)
+	NoStreams  bool        // no stream objects at all
+	MinStreams int         // at least this many stream objects (the first generated objects)
+	// ReadBack (needs Seekable, excludes Encrypt): the sink can also be read;
+	// while the document is produced earlier objects are fetched with
+	// Writer.Get (plain, stream and compressed ones), and every second stream
+	// names its filter through an indirect /Filter object, which OpenStream
+	// resolves through the Writer.
+	ReadBack    bool
+	CycleBodies bool // the k-th stream gets Bodies[k mod len(Bodies)] instead of a random element
+	Info        bool // fill in the Info dictionary
 }
 
 // UserPassword is the password of encrypted generated documents.
@@ -200,6 +208,29 @@ func (m *SeekMemSink) Seek(offset int64, whence int) (int64, error) {
 	return abs, nil
 }
 
+// RWMemSink is SeekMemSink plus Read and ReadAt (what Writer.Get needs).
+type RWMemSink struct{ SeekMemSink }
+
+func (m *RWMemSink) Read(p []byte) (int, error) {
+	if m.off >= int64(len(m.buf)) {
+		return 0, io.EOF
+	}
+	n := copy(p, m.buf[m.off:])
+	m.off += int64(n)
+	return n, nil
+}
+
+func (m *RWMemSink) ReadAt(p []byte, off int64) (int, error) {
+	if off >= int64(len(m.buf)) {
+		return 0, io.EOF
+	}
+	n := copy(p, m.buf[off:])
+	if n < len(p) {
+		return n, io.EOF
+	}
+	return n, nil
+}
+
 // planned object
 type planObj struct {
 	kind    string
@@ -208,6 +239,9 @@ type planObj struct {
 	body    []byte
 	filters []string
 	bodyK   BodyKind
+	// filterIdx >= 0: the stream's /Filter is a reference to that planned
+	// object (the name /ASCIIHexDecode); the body is written hex-encoded
+	filterIdx int
 }
 
 // DocPlan is a document before it is written: the same plan can be written to
@@ -228,6 +262,9 @@ func (o DocOptions) normal() (DocOptions, error) {
 	}
 	if o.ObjStm && !o.XRefStream {
 		return o, errors.New("docgen: object streams need a cross-reference stream")
+	}
+	if o.ReadBack && (!o.Seekable || o.Encrypt) {
+		return o, errors.New("docgen: ReadBack needs a seekable sink and no encryption")
 	}
 	if o.Encrypt && o.Version < pdf.V1_1 {
 		return o, errors.New("docgen: encryption needs PDF 1.1")
@@ -260,7 +297,7 @@ func NewDocPlan(seed int64, opt DocOptions) (*DocPlan, error) {
 	// object numbers are allocated in order 1..n+1 (object 1 is the page tree root)
 	refOf := func(i int) pdf.Reference { return pdf.NewReference(uint32(i+1), 0) }
 	g := &valGen{rng: rng, refs: func() pdf.Object { return refOf(rng.Intn(n + 1)) }}
-	p.objs = append(p.objs, planObj{kind: "dict", val: pdf.Dict{"Type": pdf.Name("Pages"), "Kids": pdf.Array{}, "Count": pdf.Integer(0)}})
+	p.objs = append(p.objs, planObj{kind: "dict", filterIdx: -1, val: pdf.Dict{"Type": pdf.Name("Pages"), "Kids": pdf.Array{}, "Count": pdf.Integer(0)}})
 	kinds := []string{"dict", "dict", "array", "int", "real", "name", "string", "bool", "null", "ref", "stream", "stream", "stream"}
 	afterMarker := false
 	nstreams := 0
@@ -280,7 +317,7 @@ func NewDocPlan(seed int64, opt DocOptions) (*DocPlan, error) {
 		if k == "stream" && opt.NoStreams {
 			k = "dict"
 		}
-		po := planObj{kind: k}
+		po := planObj{kind: k, filterIdx: -1}
 		switch k {
 		case "dict":
 			po.val = g.dict(2)
@@ -309,7 +346,10 @@ func NewDocPlan(seed int64, opt DocOptions) (*DocPlan, error) {
 			nstreams++
 			po.body = g.body(po.bodyK, opt.MaxBody)
 			afterMarker = isMarkerBody(po.bodyK)
-			if len(opt.Filters) > 0 && !afterMarker {
+			if opt.ReadBack && nstreams%2 == 0 {
+				p.objs = append(p.objs, planObj{kind: "name", val: pdf.Name("ASCIIHexDecode"), filterIdx: -1})
+				po.filterIdx = len(p.objs) - 1
+			} else if len(opt.Filters) > 0 && !afterMarker {
 				for j := rng.Intn(3); j > 0; j-- {
 					po.filters = append(po.filters, opt.Filters[rng.Intn(len(opt.Filters))])
 				}
@@ -338,7 +378,7 @@ func mkFilter(name string) pdf.Filter {
 
 // Step identifies a Writer call of a plan (for fault reports).
 type Step struct {
-	Call string // "NewWriter", "Put", "WriteCompressed", "OpenStream", "Stream.Write", "Stream.Close", "Close"
+	Call string // "NewWriter", "Put", "WriteCompressed", "OpenStream", "Stream.Write", "Stream.Close", "Get", "Close"
 	Obj  int    // index into Doc.Objects, -1 if none
 }
 
@@ -379,14 +419,53 @@ func (p *DocPlan) Write(sink io.Writer) (doc *Doc, failed Step, err error) {
 	var pendRefs []pdf.Reference
 	var pendObjs []pdf.Object
 	var pendIdx []int
+	written := make([]bool, len(p.objs))
 	flush := func() (Step, error) {
 		if len(pendRefs) == 0 {
 			return Step{}, nil
 		}
 		err := w.WriteCompressed(pendRefs, pendObjs...)
 		st := Step{"WriteCompressed", pendIdx[0]}
+		if err == nil {
+			for _, j := range pendIdx {
+				written[j] = true
+			}
+		}
 		pendRefs, pendObjs, pendIdx = nil, nil, nil
 		return st, err
+	}
+	// readBack (ReadBack documents): after object i, fetch an earlier object
+	// through the Writer and compare it with what was written
+	readBack := func(i int) (Step, error) {
+		if !opt.ReadBack || i%2 == 1 {
+			return Step{}, nil
+		}
+		j := (i*7 + 3) % (i + 1)
+		for j > 0 && !written[j] {
+			j--
+		}
+		if !written[j] {
+			return Step{}, nil
+		}
+		v, err := w.Get(refs[j], true)
+		if err != nil {
+			return Step{"Get", j}, err
+		}
+		want := doc.Objects[j]
+		if stm, isStm := v.(*pdf.Stream); isStm != (want.Kind == "stream") {
+			return Step{"Get", j}, fmt.Errorf("docgen: Writer.Get(%v) returned a %T for a %s", refs[j], v, want.Kind)
+		} else if isStm {
+			d, _ := FromPDF(stm.Dict).(obj.Dict)
+			delete(d, "Filter")
+			delete(d, "DecodeParms")
+			delete(d, "Length")
+			if !obj.Equal(d, want.Value.(*obj.Stream).Dict) {
+				return Step{"Get", j}, fmt.Errorf("docgen: Writer.Get(%v) returned another stream dictionary", refs[j])
+			}
+		} else if !obj.Equal(FromPDF(v), want.Value) {
+			return Step{"Get", j}, fmt.Errorf("docgen: Writer.Get(%v) returned %s, written was %s", refs[j], obj.String(FromPDF(v)), obj.String(want.Value))
+		}
+		return Step{}, nil
 	}
 	for i, po := range p.objs {
 		do := DocObject{Ref: refs[i], Kind: po.kind, Start: -1, End: -1}
@@ -403,23 +482,36 @@ func (p *DocPlan) Write(sink io.Writer) (doc *Doc, failed Step, err error) {
 				fs = append(fs, mkFilter(f))
 			}
 			do.Start = pos()
+			sdict, sbody := po.dict, po.body
+			if po.filterIdx >= 0 {
+				sdict = pdf.Dict{"Filter": refs[po.filterIdx]}
+				for k, v := range po.dict {
+					sdict[k] = v
+				}
+				sbody = []byte(fmt.Sprintf("%x>", po.body))
+				do.Filters = []string{"ASCIIHex"}
+			}
 			doc.Objects = append(doc.Objects, do)
-			ws, err := w.OpenStream(refs[i], po.dict, fs...)
+			ws, err := w.OpenStream(refs[i], sdict, fs...)
 			if err != nil {
 				return doc, Step{"OpenStream", i}, err
 			}
 			// two chunks, so that a Write call happens before Close
-			half := len(po.body) / 2
-			if _, err := ws.Write(po.body[:half]); err != nil {
+			half := len(sbody) / 2
+			if _, err := ws.Write(sbody[:half]); err != nil {
 				return doc, Step{"Stream.Write", i}, err
 			}
-			if _, err := ws.Write(po.body[half:]); err != nil {
+			if _, err := ws.Write(sbody[half:]); err != nil {
 				return doc, Step{"Stream.Write", i}, err
 			}
 			if err := ws.Close(); err != nil {
 				return doc, Step{"Stream.Close", i}, err
 			}
 			doc.Objects[i].End = pos()
+			written[i] = true
+			if st, err := readBack(i); err != nil {
+				return doc, st, err
+			}
 			continue
 		}
 		do.Value = FromPDF(po.val)
@@ -446,6 +538,10 @@ func (p *DocPlan) Write(sink io.Writer) (doc *Doc, failed Step, err error) {
 			return doc, Step{"Put", i}, err
 		}
 		doc.Objects[i].End = pos()
+		written[i] = true
+		if st, err := readBack(i); err != nil {
+			return doc, st, err
+		}
 	}
 	if st, err := flush(); err != nil {
 		return doc, st, err
@@ -471,7 +567,10 @@ func GenerateDoc(seed int64, opt DocOptions) (*Doc, error) {
 	}
 	var sink io.Writer
 	var get func() []byte
-	if opt.Seekable {
+	if opt.ReadBack {
+		s := &RWMemSink{}
+		sink, get = s, s.Bytes
+	} else if opt.Seekable {
 		s := &SeekMemSink{}
 		sink, get = s, s.Bytes
 	} else {
@@ -679,6 +778,8 @@ func (g *valGen) body(k BodyKind, max int) []byte {
 		}
 		b = append(b, text(600+g.rng.Intn(300))...)
 		b[len(b)-1] = 'Q'
+	case BodyBigCR:
+		b = append(text(1100+g.rng.Intn(600)), '\r')
 	case BodyBig:
 		b = text(1100 + g.rng.Intn(600))
 		if g.rng.Intn(2) == 0 {
